@@ -818,21 +818,32 @@ func (g *Gen) genGov() []string {
 		case 0, 1, 2:
 			mx, mn := g.boundPair()
 			// any subset of the four vectors, but keep min <= max against the vectors that stay
+			// (np tracks the changes already made by this proposal)
 			if g.chance(0.5) {
 				out = append(out, "max_gb", coinsTok(mx, false), "min_gb", coinsTok(mn, false))
+				np.MaxGigabytePrices, np.MinGigabytePrices = coinsSdk(mx), coinsSdk(mn)
 			} else if g.chance(0.5) {
-				out = append(out, "min_gb", coinsTok(clampBelow(mn, np.MaxGigabytePrices), false))
+				c := clampBelow(mn, np.MaxGigabytePrices)
+				out = append(out, "min_gb", coinsTok(c, false))
+				np.MinGigabytePrices = coinsSdk(c)
 			} else {
-				out = append(out, "max_gb", coinsTok(clampAbove(mx, np.MinGigabytePrices), false))
+				c := clampAbove(mx, np.MinGigabytePrices)
+				out = append(out, "max_gb", coinsTok(c, false))
+				np.MaxGigabytePrices = coinsSdk(c)
 			}
 		case 3, 4, 5:
 			mx, mn := g.boundPair()
 			if g.chance(0.5) {
 				out = append(out, "max_hr", coinsTok(mx, false), "min_hr", coinsTok(mn, false))
+				np.MaxHourlyPrices, np.MinHourlyPrices = coinsSdk(mx), coinsSdk(mn)
 			} else if g.chance(0.5) {
-				out = append(out, "min_hr", coinsTok(clampBelow(mn, np.MaxHourlyPrices), false))
+				c := clampBelow(mn, np.MaxHourlyPrices)
+				out = append(out, "min_hr", coinsTok(c, false))
+				np.MinHourlyPrices = coinsSdk(c)
 			} else {
-				out = append(out, "max_hr", coinsTok(clampAbove(mx, np.MinHourlyPrices), false))
+				c := clampAbove(mx, np.MinHourlyPrices)
+				out = append(out, "max_hr", coinsTok(c, false))
+				np.MaxHourlyPrices = coinsSdk(c)
 			}
 		case 6:
 			out = append(out, "node_share", g.share().String())
@@ -910,6 +921,11 @@ func bytesEq(a, b []byte) bool { return string(a) == string(b) }
 // subscription whose quota is shared, sessions of the co-holders with reported usage, and then
 // re-allocations around what the holders have already used.  Returns nil when nothing applies.
 func (g *Gen) goalTx() []string {
+	if g.chance(0.4) {
+		if t := g.goalNodeSession(); t != nil {
+			return t
+		}
+	}
 	ctx := g.e.ctx
 	vk := g.e.vk
 	np := vk.Node.GetParams(ctx)
@@ -1054,6 +1070,66 @@ func (g *Gen) goalTx() []string {
 		case found && ss.Status == hubtypes.StatusActive && g.chance(0.6):
 			return []string{"sess_end", g.ta('a', ad).Tok(), fmt.Sprint(ss.ID), fmt.Sprint(g.pick(11))}
 		}
+	}
+	return nil
+}
+
+// goalNodeSession drives repeated metered sessions on a per-gigabyte node subscription
+// (several settlements with byte counts that are not multiples of a base unit's worth).
+func (g *Gen) goalNodeSession() []string {
+	ctx := g.e.ctx
+	vk := g.e.vk
+	np := vk.Node.GetParams(ctx)
+	var ns *subscriptiontypes.NodeSubscription
+	for _, sb := range vk.Subscription.GetSubscriptions(ctx) {
+		if x, ok := sb.(*subscriptiontypes.NodeSubscription); ok && x.Gigabytes > 0 && x.Status == hubtypes.StatusActive {
+			if n, found := vk.Node.GetNode(ctx, x.GetNodeAddress()); found && n.Status == hubtypes.StatusActive {
+				ns = x
+			}
+		}
+	}
+	if ns == nil {
+		for _, n := range vk.Node.GetNodes(ctx) {
+			if n.Status != hubtypes.StatusActive || len(n.GigabytePrices) == 0 {
+				continue
+			}
+			pr := n.GigabytePrices[g.pick(len(n.GigabytePrices))]
+			for _, a := range g.actors {
+				need := pr.Amount.MulRaw(np.MinSubscriptionGigabytes + 2)
+				if g.e.bk.GetBalance(ctx, a.Bytes, pr.Denom).Amount.GT(need) {
+					return []string{"node_subscribe", g.ta('a', a.Bytes).Tok(), g.ta('n', n.GetAddress().Bytes()).Tok(),
+						fmt.Sprint(np.MinSubscriptionGigabytes + int64(g.pick(2))), "0", fmt.Sprint(denomNum(pr.Denom))}
+				}
+			}
+		}
+		return nil
+	}
+	owner := ns.GetAddress()
+	al, ok := vk.Subscription.GetAllocation(ctx, ns.ID, owner)
+	if !ok {
+		return nil
+	}
+	ss, found := vk.Session.GetLatestSessionForAllocation(ctx, ns.ID, owner)
+	switch {
+	case (!found || ss.Status != hubtypes.StatusActive) && al.UtilisedBytes.LT(al.GrantedBytes):
+		return []string{"sess_start", g.ta('a', owner.Bytes()).Tok(), fmt.Sprint(ns.ID), g.ta('n', ns.GetNodeAddress().Bytes()).Tok()}
+	case found && ss.Status == hubtypes.StatusActive && ss.Bandwidth.Sum().IsZero():
+		free := bsub(al.GrantedBytes.BigInt(), al.UtilisedBytes.BigInt())
+		up := g.oneOf(big.NewInt(123456789), big.NewInt(1), big.NewInt(999999999), big.NewInt(1000003), big.NewInt(333333333),
+			badd(new(big.Int).Div(free, big.NewInt(3)), big.NewInt(7)), big.NewInt(100000000))
+		dur := int64(g.pick(5000))
+		sig := "nil"
+		proof := sessiontypes.Proof{ID: ss.ID, Bandwidth: hubtypes.NewBandwidth(intOf(up), intOf(big.NewInt(0))), Duration: time.Duration(dur)}
+		bz, _ := proof.Marshal()
+		for _, ac := range g.actors {
+			if ac.Priv != nil && string(ac.Bytes) == string(owner.Bytes()) {
+				sb, _ := ac.Priv.Sign(bz)
+				sig = hex.EncodeToString(sb)
+			}
+		}
+		return []string{"sess_update", g.ta('n', ss.GetNodeAddress().Bytes()).Tok(), fmt.Sprint(ss.ID), up.String(), "0", fmt.Sprint(dur), sig, "0"}
+	case found && ss.Status == hubtypes.StatusActive:
+		return []string{"sess_end", g.ta('a', owner.Bytes()).Tok(), fmt.Sprint(ss.ID), fmt.Sprint(g.pick(11))}
 	}
 	return nil
 }
